@@ -68,6 +68,26 @@ SEEDS = {
  'C11-4': dict(f='c11_seed4_demo.rs', **integ(PN_D + '/incentive', 'incentive', 'c11_seed4_demo.rs')),
  'C12-3': dict(f='seed3_demo.rs', **integ(PN_D + '/incentive', 'incentive', 'seed3_demo.rs')),
  'C12-4': dict(f='seed4_demo.rs', **integ(PN_D + '/incentive', 'incentive', 'seed4_demo.rs')),
+ 'C02-3': dict(f='seed_c02_3.rs', **integ(PN_D + '/terraswap_pair', 'terraswap-pair', 'seed_c02_3.rs')),
+ 'C02-4': dict(f='seed_c02_4.rs', **integ(PN_D + '/terraswap_pair', 'terraswap-pair', 'seed_c02_4.rs')),
+ 'C03-3': dict(f='c03_seed3_unbalanced_deposit.rs', **integ(PN_D + '/terraswap_pair', 'terraswap-pair', 'c03_seed3_unbalanced_deposit.rs')),
+ 'C03-4': dict(f='c03_seed4_swap_second_asset.rs', **integ(PN_D + '/terraswap_pair', 'terraswap-pair', 'c03_seed4_swap_second_asset.rs')),
+ 'C07-3': dict(f='seeded_c07_burned_counter.rs', **integ(PN_D + '/terraswap_pair', 'terraswap-pair', 'seeded_c07_burned_counter.rs')),
+ 'C07-4': dict(f='seeded_c07_all_time_fees.rs', **integ('contracts/liquidity_hub/vault-network/vault', 'vault', 'seeded_c07_all_time_fees.rs')),
+ 'C14-3': dict(f='c14_share_query_matches_withdraw.rs', **integ('contracts/liquidity_hub/vault-network/vault', 'vault', 'c14_share_query_matches_withdraw.rs')),
+ 'C14-4': dict(f='c14_stableswap_simulation_matches_swap.rs', **integ(PN_D + '/terraswap_pair', 'terraswap-pair', 'c14_stableswap_simulation_matches_swap.rs')),
+ 'C15-3': dict(f='seeded_c15_3_trio_spread.rs', **integ(PN_D + '/stableswap_3pool', 'stableswap-3pool', 'seeded_c15_3_trio_spread.rs')),
+ 'C15-4': dict(f='seeded_c15_4_deposit_order.rs', **integ(PN_D + '/terraswap_pair', 'terraswap-pair', 'seeded_c15_4_deposit_order.rs')),
+ 'C16-3': dict(f='c16_remove_hook_auth.rs', **integ('contracts/liquidity_hub/epoch-manager', 'epoch-manager', 'c16_remove_hook_auth.rs')),
+ 'C16-4': dict(f='c16_migrate_incentive_auth.rs', **integ(PN_D + '/incentive_factory', 'incentive-factory', 'c16_migrate_incentive_auth.rs')),
+ 'C17-3': dict(f='c17_seed3_demo.rs', **integ(PN_D + '/terraswap_pair', 'terraswap-pair', 'c17_seed3_demo.rs')),
+ 'C17-4': dict(f='c17_seed4_demo.rs', **integ('contracts/liquidity_hub/vault-network/vault', 'vault', 'c17_seed4_demo.rs')),
+ 'C18-3': dict(f='c18_grace_period_never_decreases.rs', **integ('contracts/liquidity_hub/fee_distributor', 'fee_distributor', 'c18_grace_period_never_decreases.rs')),
+ 'C18-4': dict(f='c18_growth_rate_bound.rs', **integ('contracts/liquidity_hub/whale_lair', 'whale-lair', 'c18_growth_rate_bound.rs')),
+ 'C19-3': dict(f='c19_recreate_removed_pair.rs', **integ(PN_D + '/terraswap_factory', 'terraswap-factory', 'c19_recreate_removed_pair.rs')),
+ 'C19-4': dict(f='c19_incentives_pagination.rs', **integ(PN_D + '/incentive_factory', 'incentive-factory', 'c19_incentives_pagination.rs')),
+ 'C20-3': dict(f='c20_hooks_catch_up.rs', **integ('contracts/liquidity_hub/epoch-manager', 'epoch-manager', 'c20_hooks_catch_up.rs')),
+ 'C20-4': dict(f='c20_genesis.rs', **integ('contracts/liquidity_hub/fee_distributor', 'fee_distributor', 'c20_genesis.rs')),
 }
 try: SEEDS.update(json.load(open(V + '/seeded/extra_seeds.json')))
 except Exception: pass
@@ -143,7 +163,7 @@ def run(sid, checks):
         m = json.load(open(mp)); m.setdefault('checks', {}).update(res); json.dump(m, open(mp, 'w'), indent=1)
 
 
-EXTRA = {'C04-3': ['C07'], 'C04-4': ['C07'], 'C05-3': [], 'C05-4': ['C06'], 'C06-3': [], 'C06-4': ['C05'], 'C07-1': ['C05', 'C06'], 'C07-2': ['C04'], 'C14-2': ['C04'], 'C18-2': ['C04'], 'C16-2': ['C06'], 'C11-1': ['C13'], 'C17-1': ['C18'], 'C01-2': ['C07'], 'C01-1': ['C02'], 'C05-1': ['C06'], 'C05-2': ['C06', 'C07'],
+EXTRA = {'C17-4': ['C16'], 'C17-3': ['C16'], 'C03-4': ['C14'], 'C14-4': ['C03'], 'C14-3': ['C05'], 'C07-4': ['C06'], 'C15-4': ['C01'], 'C02-3': ['C01'], 'C04-3': ['C07'], 'C04-4': ['C07'], 'C05-3': [], 'C05-4': ['C06'], 'C06-3': [], 'C06-4': ['C05'], 'C07-1': ['C05', 'C06'], 'C07-2': ['C04'], 'C14-2': ['C04'], 'C18-2': ['C04'], 'C16-2': ['C06'], 'C11-1': ['C13'], 'C17-1': ['C18'], 'C01-2': ['C07'], 'C01-1': ['C02'], 'C05-1': ['C06'], 'C05-2': ['C06', 'C07'],
          'C06-1': ['C05'], 'C06-2': ['C05'], 'C03-1': ['C14'], 'C15-2': ['C14']}
 
 
@@ -171,6 +191,13 @@ NOTES = {
  'C13-4': 'missed at first: receiver-directed open / expand weight steps added',
  'C04-3': 'first run inconclusive (kernel-stubbed counterexample): native predicate with a re-stated compute_d added to the C04 mint obligations',
  'C04-4': 'missed by C04 at first (caught by C07): collect step added to C04',
+ 'C03-3': '**NOT CAUGHT**: the change lowers the iteration budget of the D solver (256 -> 32); the solver is an uninterpreted function in C03 and its convergence is outside what the encoding reaches (stated in the evidence); the one-step loop-exit obligations hold for either budget',
+ 'C07-3': 'first run inconclusive (kernel-stubbed counterexample): native predicate over the real ledgers / burn messages added to the pair and trio swap-ledger obligations',
+ 'C15-3': 'would have been missed: trio swap slippage-argument obligation added before the run',
+ 'C15-4': 'would have been missed: pair deposit tolerance-argument obligation added before the run',
+ 'C17-3': 'missed at first: direct Swap message naming a cw20 offer added (refused in every switch state)',
+ 'C19-4': 'first run inconclusive (String::into_bytes model missing) and the listing had native LPs only: model added, cw20 LPs added to the incentive pagination',
+ 'C20-3': 'missed at first: catch-up history (three creations in one block) added',
  'C03-1': 'C03 did not exist yet: built (swap.args)', 'C03-2': 'C03 did not exist yet: built (deposit.args / deposit.mint with native confirmation)',
 }
 
